@@ -1091,6 +1091,8 @@ def call_ext(it, dotted, args, kwargs):
             return True          # symbolic numbers stand for finite floats
         if isinstance(args[0], Arr):
             return args[0].map(lambda x: fin(x))
+        if isinstance(args[0], (list, tuple)):
+            return Arr([fin(x) for x in args[0]])
         return fin(args[0])
     if mod == 're' and short == 'compile':
         if not all(isinstance(a, (str, int)) for a in args):
